@@ -153,7 +153,7 @@ func (g *replayGen) expr(name string, T types.Type, depth int) string {
 		if !ok {
 			return "nil"
 		}
-		if base == 0 && n == 0 {
+		if (base == 0 && n == 0) || n < 0 {
 			return "nil"
 		}
 		if n > replayBytes {
@@ -162,6 +162,9 @@ func (g *replayGen) expr(name string, T types.Type, depth int) string {
 			return "nil"
 		}
 		if _, _, isInt := intInfo(u.Elem()); !isInt {
+			if n == 0 {
+				return "nil"
+			}
 			g.notes = append(g.notes, name+": non-integer elements left zero")
 			return fmt.Sprintf("make(%s, %d)", g.typeStr(T), n)
 		}
@@ -304,7 +307,7 @@ var safetyKinds = map[string]bool{"bounds": true, "nil": true, "assert": true, "
 
 // shrinkAndModel re-solves a failed obligation with small-input constraints so the model can be built.
 func shrinkAndModel(o *Obligation, opt *solveOpts) {
-	if o.Verdict != "sat" {
+	if o.Verdict != "sat" && o.Verdict != "sat-relaxed" {
 		return
 	}
 	best := parseGetValue(o.Raw, o.Inputs)
@@ -337,7 +340,7 @@ func shrinkAndModel(o *Obligation, opt *solveOpts) {
 		o2.Verdict = ""
 		o2.ID = o.ID + "/shrink"
 		discharge(&o2, opt, 9000)
-		if o2.Verdict == "sat" {
+		if o2.Verdict == "sat" || o2.Verdict == "sat-relaxed" {
 			best = parseGetValue(o2.Raw, o.Inputs)
 			o.Raw = o2.Raw
 			break
